@@ -124,6 +124,10 @@ E('zeros_like[2,3]', algopy.zeros_like, np.zeros_like, [u((2, 3), 'any')], tags=
 E('ones_like[2,3]', algopy.ones_like, np.ones_like, [u((2, 3), 'any')], tags=('shape',))
 E('zeros((2,2),dtype=U)', lambda x: algopy.zeros((2, 2), dtype=x), lambda x: np.zeros((2, 2)), [u((3,), 'any')], tags=('shape',))
 E('ones(3,dtype=U)', lambda x: algopy.ones(3, dtype=x), lambda x: np.ones(3), [u((), 'any')], tags=('shape',))
+# the shape argument as a NumPy integer scalar (numpy.prod(...), an index-array entry) instead of a Python int
+for _nm, _n in (('np.int64(3)', np.int64(3)), ('np.intp(2)', np.intp(2)), ('np.prod', np.prod((2, 2))), ('np.int32(4)', np.int32(4))):
+    E('zeros(%s,dtype=U)' % _nm, (lambda x, n=_n: algopy.zeros(n, dtype=x)), (lambda x, n=_n: np.zeros(n)), [u((2,), 'any')], tags=('shape',))
+    E('ones(%s,dtype=U)' % _nm, (lambda x, n=_n: algopy.ones(n, dtype=x)), (lambda x, n=_n: np.ones(n)), [u((2,), 'any')], tags=('shape',))
 E('getitem[2,3][1,::-1]', lambda x: x[1, ::-1], lambda x: x[1, ::-1], [u((2, 3), 'any')], tags=('shape',))
 E('fft[2,3]', algopy.fft.fft, np.fft.fft, [u((2, 3), 'any')], tags=('shape', 'fft'))
 E('fft[2,3] axis=0', lambda x: algopy.fft.fft(x, axis=0), lambda x: np.fft.fft(x, axis=0), [u((2, 3), 'any')], tags=('shape', 'fft'))
